@@ -349,6 +349,40 @@ def run_case(case):
                     res["counters"]["poolchg_" + k_] = res["counters"].get("poolchg_" + k_, 0) + v_
                 if len(V) > nv0:
                     break
+        # ---------------------------------------------------------------- status / list on a partially synced array
+        # (pending deletions, additions and changes left behind by partial or killed syncs: the per-stripe lines and the
+        # counters must still be exactly what the recorded state says)
+        from .c10 import expect_from_content, list_dump, status_dump
+        nv1 = len(V)
+        for rnd in range(2):
+            scen.mutate(fs, rng, rng.randint(3, 7), hostile=0.2, ops=["delete", "delete", "create", "overwrite", "append", "truncate", "move_disk"], maxblocks=5)
+            sargs = rng.choice([["-B", str(rng.randint(1, 3))], ["-S", str(rng.randint(0, 3)), "-B", str(rng.randint(1, 3))], ["--test-kill-after-sync"], ["-B", "1"]])
+            rs = a.cmd("sync", "-E", "-Z", *sargs, variant=variant)
+            try:
+                c3 = a.load_content()
+            except Exception:
+                break
+            efiles, elinks, eblocks, esumm = expect_from_content(c3)
+            r2, blocks, summ = status_dump(a, variant)
+            r1, files, links = list_dump(a, variant)
+            lab = "after sync %s (rc %s)" % (" ".join(sargs), rs.rc)
+            for s_ in r1.san + r2.san:
+                V.append(("sanitizer:" + A.san_key(s_), s_[:2000], rep))
+            if r1.rc != 0 or r2.rc != 0:
+                V.append(("status-or-list-fails", "%s: list rc=%s status rc=%s" % (lab, r1.rc, r2.rc), rep))
+                break
+            if blocks != eblocks:
+                dd = [(k, blocks.get(k), eblocks.get(k)) for k in sorted(set(blocks) | set(eblocks)) if blocks.get(k) != eblocks.get(k)][:3]
+                V.append(("status-differs-from-recorded-state:blocks", "%s: (stripe, printed (time, used, unsynced, bad, rehash), recorded) %s" % (lab, dd), rep))
+            if summ != esumm:
+                V.append(("status-differs-from-recorded-state:summary", "%s: printed %s, recorded state gives %s" % (lab, summ, esumm), rep))
+            if files != efiles or links != elinks:
+                V.append(("list-differs-from-recorded-state", "%s: %s" % (lab, evidence.jsonable(([x for x in files if x not in efiles] + [x for x in efiles if x not in files])[:2])), rep))
+            res["counters"]["unsynced_states_viewed"] = res["counters"].get("unsynced_states_viewed", 0) + 1
+            res["counters"]["unsynced_stripes_seen"] = res["counters"].get("unsynced_stripes_seen", 0) + esumm.get("has_unsynced", 0)
+            res["counters"]["views"] += 1
+            if len(V) > nv1:
+                break
         res["nontrivial"] = True
         res["nviews"] = res["counters"].get("views", 0)
         res["key"] = "%s|%d" % (sorted((k, str(v)) for k, v in cfg.items()), idx)
